@@ -499,6 +499,68 @@ pub fn oracle_junk_mode(c: &JunkCase, which: Which, obs: &mut Obs, counted: bool
     Verdict::Pass
 }
 
+// ---- C14 with the implementation's own markers: also defined where C11 is silent (shared tag lines) -------------
+
+/// The removed characters are taken from chiritori's own markers (what clean deletes before tidying); the
+/// unwrapped bodies from the head/tail pairs. Only C14's statement is asserted.
+pub fn oracle_c14_markers(c: &JunkCase, obs: &mut Obs) -> Verdict {
+    let markers = match impl_markers(&c.src, &c.cfg) {
+        Ok(m) => m,
+        Err(p) => vfail!("building the removal markers panicked: {p}\n  src = {:?}", c.src),
+    };
+    let out = match call_clean(&c.src, &c.cfg) {
+        Ok(o) => o,
+        Err(p) => vfail!("clean panicked: {p}\n  src = {:?}", c.src),
+    };
+    let n = c.src.len();
+    let mut keep = vec![true; n];
+    let mut inbody = vec![false; n];
+    for (i, (r, pair)) in markers.iter().enumerate() {
+        if r.end > n || r.start > r.end {
+            vfail!("marker {:?} is outside the source ({} bytes)", r, n);
+        }
+        for k in keep.iter_mut().take(r.end).skip(r.start) {
+            *k = false;
+        }
+        if let Some(p) = pair {
+            if *p > i && *p < markers.len() {
+                let tail = &markers[*p].0;
+                for b in inbody.iter_mut().take(tail.start.min(n)).skip(r.end) {
+                    *b = true;
+                }
+            }
+        }
+    }
+    match assert_c14(&c.src, &keep, &inbody, &out) {
+        Err(m) => Verdict::Fail(format!("{m}\n  (removed characters = chiritori's own markers {:?})\n  delims = {:?}/{:?} targets = {:?}", markers.iter().map(|(r, _)| (r.start, r.end)).collect::<Vec<_>>(), c.cfg.ds, c.cfg.de, c.cfg.targets)),
+        Ok(interesting) => {
+            if !markers.is_empty() && interesting > 0 {
+                if markers.iter().any(|(_, p)| p.is_some()) {
+                    obs.class("markers:has-unwrapped-body");
+                }
+                obs.nontrivial(c, || json!({"src": c.src, "out": out, "markers": markers.iter().map(|(r, _)| (r.start, r.end)).collect::<Vec<_>>()}));
+            }
+            Verdict::Pass
+        }
+    }
+}
+
+fn gen_hostile_junk(t: &mut Tape) -> JunkCase {
+    let mut o = dense_opts(Which::C02);
+    o.unwrap_tags_shared = true;
+    o.shared_pct = 55;
+    o.straddle_pct = 30;
+    o.delims = vec![("<", ">"), ("<!-- <", "> -->"), ("「", "」"), ("|", "|"), ("[[", "]]"), ("/* ", " */")];
+    let (doc, sp) = astgen::gen_doc(t, &o);
+    let mut acfg = astgen::gen_acfg(t);
+    if t.chance(70) {
+        acfg.now_idx = 4;
+        acfg.targets = 7;
+    }
+    let r = astgen::render(&doc, &sp);
+    JunkCase { src: r.src, cfg: acfg.to_cfg(&sp) }
+}
+
 // ---- whitespace layouts (C04) -------------------------------------------------------------------------------
 
 fn ws_layout_units() -> Vec<usize> {
@@ -515,7 +577,7 @@ pub fn check(ctx: &mut Ctx, id: &'static str) {
         Which::C02 => "cases = (AST document, spelling, abstract configuration) with ground truth by construction, and junk / mutated documents judged by the reference model R1-R5 (documents outside the tag grammar or with ready unwrap tags sharing a line are excluded and counted). Oracle: output is a subsequence of the input and the non-whitespace text outside all removable extents is a subsequence of the output's. Non-trivial = at least one ready element and at least one non-whitespace character outside all extents.".into(),
         Which::C03 => "same generators as C02. Oracle: nonws(out) == nonws(input minus removable extents); on AST documents additionally every opening tag carries c=\"#id#\": ids of tags inside a removable extent must be absent, ids of tags outside must be present. Non-trivial = a ready element nested in a pending / skip / unregistered / ready parent or in an unwrapped body (AST), or a ready element at depth >= 1 (junk).".into(),
         Which::C04 => "AST documents in which every element that would be ready is neutralised (skip / unregistered name / malformed or missing condition / future date) plus unwrap-blocks that cannot be unwrapped, junk documents in which the reference evaluation finds nothing ready, and exhaustive whitespace layouts. Oracle: clean(src) == src byte for byte and list is empty. Non-trivial = at least one complete element or >= 2 consecutive blank lines.".into(),
-        Which::C14 => "same generators as C02. Oracle: every maximal kept stretch, trimmed of spaces/tabs/line breaks, occurs verbatim in the output, searched left to right after the previous match; inside unwrapped bodies line by line. Non-trivial = something ready and a kept stretch with an interior line break, double space or tab.".into(),
+        Which::C14 => "same generators as C02, plus hostile layouts (unwrap tags sharing lines with code, straddling children) and junk where the removed characters are taken from chiritori's own removal markers (so the statement is also checked where C11 defines no extent). Oracle: every maximal kept stretch, trimmed of spaces/tabs/line breaks, occurs verbatim in the output, searched left to right after the previous match; inside unwrapped bodies line by line. Non-trivial = something ready and a kept stretch with an interior line break, double space or tab.".into(),
     };
     ctx.assume("tag bodies follow the documented grammar (quoted values, space / line-break separators); other shapes are excluded from the reference model and counted");
     ctx.assume("a ready unwrap-block whose own tags share a line with code has no defined extent (C11) and is excluded");
@@ -620,6 +682,11 @@ pub fn check(ctx: &mut Ctx, id: &'static str) {
         o
     };
     ctx.random("mutated-ast", 400, q / 2, th / 2, |t| junkgen::gen_mutated(t, &mo), |c, obs| oracle_junk(c, which, obs));
+    if which == Which::C14 {
+        ctx.require_class("markers:has-unwrapped-body");
+        ctx.random("hostile-layouts-own-markers", 300, q, th, gen_hostile_junk, oracle_c14_markers);
+        ctx.random("junk-soup-own-markers", 200, q / 2, th / 2, |t| junkgen::gen_soup(t, junkgen::JUNK_DELIMS, true), oracle_c14_markers);
+    }
     if ctx.tier == Tier::Thorough {
         let mut seeds = vec![];
         for t in repo_seed_texts() {
@@ -644,6 +711,10 @@ pub fn shrink_ast(c: &AstCase, fails: &dyn Fn(&AstCase) -> bool) -> AstCase {
 pub fn replay(id: &str, sub: &str, case: &Value, obs: &mut Obs) -> Result<Verdict, String> {
     let which = Which::from(id);
     match sub {
+        "hostile-layouts-own-markers" | "junk-soup-own-markers" => replay_case::<JunkCase, _>(case, obs, |c, obs| {
+            obs.eval();
+            oracle_c14_markers(c, obs)
+        }),
         "ast-documents" | "dense-ast-documents" => replay_case::<AstCase, _>(case, obs, |c, obs| {
             obs.eval();
             oracle_ast(c, which, obs)
